@@ -145,6 +145,14 @@ func runC15(c C15Case) (c15Stats, error) {
 			if _, ok := cache[name]; ok {
 				changed[name] = true
 			}
+		case "touch":
+			// the timestamp advances, the content stays: visible as "changed" once, then unchanged again
+			l := op.Loader % 3
+			if it, ok := raw[l].items[name]; ok {
+				clock += 10
+				it.ts = clock
+				raw[l].items[name] = it
+			}
 		case "remove":
 			l := op.Loader % 3
 			if _, ok := raw[l].items[name]; ok {
@@ -269,7 +277,12 @@ func runC15(c C15Case) (c15Stats, error) {
 			}
 			// update the model's cache
 			if cacheOn {
+				reloaded := cached && autoReload && ent.loader >= 0 && tsAware[ent.loader] && has && cur.loader == ent.loader && cur.version == ent.version && cur.ts > ent.ts
 				switch {
+				case reloaded:
+					// same content under a newer timestamp: the reload refreshes what the cache
+					// remembers, so that the next call finds the template unchanged
+					cache[name] = cur
 				case cached && got == ent.version:
 					// kept
 				default:
@@ -306,6 +319,9 @@ func keysOf(m map[int]bool) []int {
 }
 
 func genC15Op(t *rapid.T) C15Op {
+	if rapid.IntRange(0, 11).Draw(t, "touch") == 0 {
+		return C15Op{Op: "touch", Name: rapid.IntRange(0, 2).Draw(t, "name"), Loader: rapid.IntRange(0, 2).Draw(t, "loader")}
+	}
 	k := rapid.IntRange(0, 19).Draw(t, "opkind")
 	op := C15Op{Name: rapid.IntRange(0, 2).Draw(t, "name"), Loader: rapid.IntRange(0, 2).Draw(t, "loader"), On: rapid.Bool().Draw(t, "on")}
 	switch {
@@ -335,7 +351,7 @@ func genC15Op(t *rapid.T) C15Op {
 	return op
 }
 
-const c15Rule = "histories of 10-40 (thorough 200) operations on one engine with three loaders in registration order (timestamp-aware, plain, timestamp-aware; in-memory with read counters): SetCache, SetAutoReload, SetDevelopmentMode, RegisterString, source changes with strictly increasing timestamps, removals, Load / Render / RenderTo of 3 names and of an absent name; sources are version markers so the served version is read off the output; non-trivial = a read of a name whose source changed or was re-registered after it had been cached; distinct by operation list"
+const c15Rule = "histories of 10-40 (thorough 200) operations on one engine with three loaders in registration order (timestamp-aware, plain, timestamp-aware; in-memory with read counters): SetCache, SetAutoReload, SetDevelopmentMode, RegisterString, source changes with strictly increasing timestamps, timestamp changes without a content change, removals, Load / Render / RenderTo of 3 names and of an absent name; sources are version markers so the served version is read off the output; non-trivial = a read of a name whose source changed or was re-registered after it had been cached; distinct by operation list"
 
 func TestC15Cache(t *testing.T) {
 	r := NewRec(t, "C15", c15Rule)
@@ -395,8 +411,9 @@ func init() { reg("C15.cache", checkC15) }
 // ---- file-system loader arm ---------------------------------------------------------------------
 
 type C15FSOp struct {
-	Op   string `json:"op"` // write | remove | load | render | cache | autoreload
+	Op   string `json:"op"` // write | touch | remove | load | render | cache | autoreload
 	Name int    `json:"name"`
+	Root int    `json:"root,omitempty"` // which of the two search paths a write/touch/remove addresses
 	On   bool   `json:"on,omitempty"`
 }
 
@@ -418,21 +435,53 @@ func runC15FS(c C15FSCase) (bool, error) {
 		return false, fmt.Errorf("harness: %v", err)
 	}
 	defer os.RemoveAll(root)
+	// two search paths: the first that has the file wins
+	roots := []string{filepath.Join(root, "first"), filepath.Join(root, "second")}
+	for _, d := range roots {
+		os.MkdirAll(d, 0o755)
+	}
 	e := twig.New()
-	e.RegisterLoader(twig.NewFileSystemLoader([]string{root}))
+	e.RegisterLoader(twig.NewFileSystemLoader(roots))
 	type ent struct {
 		version int
 		ts      int64
+		root    int
 	}
-	files := map[string]ent{}
+	files := []map[string]ent{{}, {}}
 	cache := map[string]ent{}
 	cacheOn, autoReload := true, false
 	version := 0
 	clock := time.Now().Unix() - 100000
 	nontrivial := false
+	first := func(name string) (ent, bool) {
+		for _, m := range files {
+			if it, ok := m[name]; ok {
+				return it, true
+			}
+		}
+		return ent{}, false
+	}
+	// the loader remembers in which search path it found a name and keeps reading that copy
+	// while it exists (documented in its source: "Save the path for future lookups"); the
+	// statement fixes the order of loaders, not of one loader's search paths, so where two
+	// copies exist the remembered one and the first one are both admissible
+	known := map[string]int{}
+	candidates := func(name string, into map[int]bool) bool {
+		cur, has := first(name)
+		if has {
+			into[cur.version] = true
+		}
+		if r, ok := known[name]; ok {
+			if it, ok := files[r][name]; ok {
+				into[it.version] = true
+			}
+		}
+		return has
+	}
 	for i, op := range c.Ops {
 		name := c15FSNames[op.Name%len(c15FSNames)]
-		path := filepath.Join(root, name+".twig")
+		rt := op.Root % 2
+		path := filepath.Join(roots[rt], name+".twig")
 		switch op.Op {
 		case "cache":
 			e.SetCache(op.On)
@@ -448,29 +497,39 @@ func runC15FS(c C15FSCase) (bool, error) {
 				return false, fmt.Errorf("harness: %v", err)
 			}
 			os.Chtimes(path, time.Unix(clock, 0), time.Unix(clock, 0))
-			files[name] = ent{version, clock}
+			files[rt][name] = ent{version, clock, rt}
+		case "touch":
+			if it, ok := files[rt][name]; ok {
+				clock += 10
+				os.Chtimes(path, time.Unix(clock, 0), time.Unix(clock, 0))
+				it.ts = clock
+				files[rt][name] = it
+			}
 		case "remove":
 			os.Remove(path)
-			delete(files, name)
+			delete(files[rt], name)
 		case "load", "render":
-			cur, has := files[name]
+			cur, has := first(name)
 			cached, isCached := cache[name]
-			want, notFound := 0, false
+			admissible := map[int]bool{}
+			notFound := false
 			switch {
 			case !cacheOn || !isCached:
-				if has {
-					want = cur.version
-				} else {
+				if !candidates(name, admissible) {
 					notFound = true
 				}
 			case !autoReload:
-				want = cached.version
+				admissible[cached.version] = true
 			default:
-				if has && cur.ts <= cached.ts {
-					want = cached.version
-				} else if has {
-					want = cur.version
-				} else {
+				origin, still := files[cached.root][name]
+				if still && origin.version == cached.version && origin.ts <= cached.ts {
+					// the file the cached copy came from is unchanged; an earlier search path may
+					// have gained the name meanwhile: the statement is silent on which clause wins
+					admissible[cached.version] = true
+					if has && cur.root < cached.root {
+						admissible[cur.version] = true
+					}
+				} else if !candidates(name, admissible) {
 					notFound = true
 				}
 			}
@@ -490,12 +549,12 @@ func runC15FS(c C15FSCase) (bool, error) {
 			if r.Panic != "" {
 				return nontrivial, fmt.Errorf("%s panicked: %s", desc, r.Panic)
 			}
-			if len(files) >= 2 {
+			if len(files[0])+len(files[1]) >= 2 {
 				nontrivial = true
 			}
 			if r.Err != "" {
 				if !notFound {
-					return nontrivial, fmt.Errorf("%s failed (%s) but version %d is what the configuration calls for", desc, firstLine(r.Err), want)
+					return nontrivial, fmt.Errorf("%s failed (%s) but versions %v are what the configuration calls for", desc, firstLine(r.Err), keysOf(admissible))
 				}
 				if !errors.Is(r.Error(), twig.ErrTemplateNotFound) {
 					return nontrivial, fmt.Errorf("%s: error does not match ErrTemplateNotFound: %s", desc, firstLine(r.Err))
@@ -505,12 +564,25 @@ func runC15FS(c C15FSCase) (bool, error) {
 			if notFound {
 				return nontrivial, fmt.Errorf("%s returned %s although the file does not exist and nothing valid is cached", desc, q(r.Out))
 			}
-			if r.Out != fmt.Sprintf("v%d", want) {
-				return nontrivial, fmt.Errorf("%s served %s, the configuration calls for v%d (files on disk: %v)", desc, q(r.Out), want, files)
+			var got int
+			if _, err := fmt.Sscanf(r.Out, "v%d", &got); err != nil || !admissible[got] {
+				return nontrivial, fmt.Errorf("%s served %s, the configuration calls for versions %v (files in the two search paths: %v)", desc, q(r.Out), keysOf(admissible), files)
+			}
+			for r, m := range files {
+				if it, ok := m[name]; ok && it.version == got {
+					known[name] = r
+				}
 			}
 			if cacheOn {
-				if !isCached || want != cached.version {
-					cache[name] = ent{want, cur.ts}
+				switch {
+				case isCached && got == cached.version && has && cur.root == cached.root && cur.version == cached.version && cur.ts > cached.ts && autoReload:
+					cache[name] = cur // touched: the reload refreshes the remembered timestamp
+				case !isCached || got != cached.version:
+					for _, m := range files {
+						if it, ok := m[name]; ok && it.version == got {
+							cache[name] = it
+						}
+					}
 				}
 			}
 		}
@@ -519,14 +591,29 @@ func runC15FS(c C15FSCase) (bool, error) {
 }
 
 func TestC15Files(t *testing.T) {
-	r := NewRec(t, "C15", "histories of 10-40 operations on an engine with a FileSystemLoader over a temp directory: writes (distinct version markers, strictly increasing mtimes set with os.Chtimes), removals, Load/Render, SetCache, SetAutoReload over 8 names that differ only after the last dot, in the directory part or by one character (a, a.b, a.c, mail.html, mail.txt, dir/a, dir/a.b, ab); oracle: the same cache model; non-trivial = at least two files exist when a name is read; distinct by operation list")
+	r := NewRec(t, "C15", "histories of 10-40 operations on an engine with a FileSystemLoader over two search paths in a temp directory: writes (distinct version markers, strictly increasing mtimes set with os.Chtimes), mtime changes without a content change, removals (also of the earlier of two copies), Load/Render, SetCache, SetAutoReload over 8 names that differ only after the last dot, in the directory part or by one character (a, a.b, a.c, mail.html, mail.txt, dir/a, dir/a.b, ab); oracle: the same cache model; non-trivial = at least two files exist when a name is read; distinct by operation list")
 	defer r.Flush()
 	rapid.Check(t, func(rt *rapid.T) {
 		n := rapid.IntRange(10, 40).Draw(rt, "nops")
 		var c C15FSCase
+		if rapid.IntRange(0, 3).Draw(rt, "twocopies") == 0 {
+			// both search paths hold the name (written in either order), it is cached, then one
+			// copy goes away or changes; random operations follow
+			nm := rapid.IntRange(0, len(c15FSNames)-1).Draw(rt, "tcname")
+			firstWritten := rapid.IntRange(0, 1).Draw(rt, "tcorder")
+			c.Ops = append(c.Ops, C15FSOp{Op: "write", Name: nm, Root: firstWritten}, C15FSOp{Op: "write", Name: nm, Root: 1 - firstWritten},
+				C15FSOp{Op: "autoreload", On: rapid.IntRange(0, 3).Draw(rt, "tcar") != 0}, C15FSOp{Op: "load", Name: nm},
+				C15FSOp{Op: rapid.SampledFrom([]string{"remove", "remove", "touch", "write"}).Draw(rt, "tcchange"), Name: nm, Root: rapid.IntRange(0, 1).Draw(rt, "tcroot")},
+				C15FSOp{Op: "load", Name: nm}, C15FSOp{Op: "render", Name: nm})
+		}
 		for i := 0; i < n; i++ {
-			op := C15FSOp{Name: rapid.IntRange(0, len(c15FSNames)-1).Draw(rt, "name"), On: rapid.IntRange(0, 3).Draw(rt, "on") != 0}
-			switch k := rapid.IntRange(0, 11).Draw(rt, "kind"); {
+			op := C15FSOp{Name: rapid.IntRange(0, len(c15FSNames)-1).Draw(rt, "name"), On: rapid.IntRange(0, 3).Draw(rt, "on") != 0, Root: rapid.IntRange(0, 1).Draw(rt, "root")}
+			if rapid.IntRange(0, 2).Draw(rt, "fewnames") == 0 {
+				op.Name = op.Name % 2 // concentrate on two names so that both search paths hold the same name
+			}
+			switch k := rapid.IntRange(0, 12).Draw(rt, "kind"); {
+			case k == 12:
+				op.Op = "touch"
 			case k <= 3:
 				op.Op = "write"
 			case k == 4:
